@@ -1,3 +1,210 @@
-import Babylon.Core.Proto
-/-! Line-protocol driver for property C07 (stub). -/
-def main : IO Unit := Babylon.Core.runLines (fun (s : Unit) _ => (s, "bad-op")) ()
+import Babylon.Core.Trace
+import Babylon.Exec.Model
+import Babylon.Exec.Simple
+/-! Replay driver for property C07 (executors).
+stdin: runs `RUN <seed> mode=pool W=… L=… G=… steal=… bal=…` / VRT trace lines / `END`;
+stdout per run: `ok <n>` | `diverge <why>`.
+
+Every trace line of a named location (`gpush`, `gpop`, `lpush.k`, `lpop.k`, `running`), every harness
+event and every `exit` / `join` must be the next step of that thread in `Babylon.Exec.step`.  The
+three hidden steps (publish / receive / release) are inserted as late as possible: immediately
+before the next visible action of the thread that owes them, or when another thread's visible action
+needs them (a claim of a ticket whose push is still pending in the model, a publish into a slot whose
+previous pop is still pending …). -/
+open Babylon.Core Babylon.Exec
+
+structure RState where
+  mode : String
+  c : Cfg
+  s : State
+  started : Bool
+  maxTid : Nat
+  simple : Simple.State
+  hiddenSteps : Nat := 0
+
+def hdrNat (hdr : List String) (key : String) (dflt : Nat) : Nat :=
+  (hdr.filterMap (fun h => if h.startsWith (key ++ "=") then (h.drop (key.length + 1)).toNat? else none)).head?.getD dflt
+
+def hdrStr (hdr : List String) (key : String) (dflt : String) : String :=
+  (hdr.filterMap (fun h => if h.startsWith (key ++ "=") then some (h.drop (key.length + 1)).toString else none)).head?.getD dflt
+
+def initR (hdr : List String) : RState :=
+  let w := hdrNat hdr "W" 1
+  let c : Cfg := { L := hdrNat hdr "L" 0, G := hdrNat hdr "G" 1, steal := hdrNat hdr "steal" 0 == 1,
+                   workers := (List.range w).map (· + 1),
+                   bal := if hdrNat hdr "bal" 0 == 1 then some (w + 1) else none }
+  { mode := hdrStr hdr "mode" "pool", c := c, s := State.init c, started := false, maxTid := w + 1,
+    simple := Simple.State.init }
+
+def showPc (p : Pc) : String := reprStr p
+
+/-- `lpop.3` → some 3 -/
+def slotOf (pfx name : String) : Option Nat :=
+  if name.startsWith pfx then (name.drop pfx.length).toNat? else none
+
+def parseIn (w : String) : Option Bool :=
+  if w == "in=1" then some true else if w == "in=0" then some false else none
+
+/-- trace line → label (`none`: a line this model has nothing to say about) -/
+def lblOf (a : Act) : Except String (Option Lbl) :=
+  match a with
+  | .ld n 0 o v =>
+    if n == "running" then (if o == .acq then .ok (some (.ldRun (v != 0))) else .error "memory order of the `_running` load is not acquire")
+    else match slotOf "lpop." n, slotOf "lpush." n with
+      | some k, _ => if o == .rlx then .ok (some (.ldPop k v)) else .error "memory order of an index load is not relaxed"
+      | _, some k => if o == .rlx then .ok (some (.ldPush k v)) else .error "memory order of an index load is not relaxed"
+      | _, _ => .ok none
+  | .st n 0 o v =>
+    if n == "running" then (if o == .rel ∧ v == 0 then .ok (some .stRun) else .error "unexpected store to `_running`")
+    else match slotOf "lpush." n with
+      | some k => if o == .rlx then .ok (some (.stPush k v)) else .error "memory order of an index store is not relaxed"
+      | none => .error s!"unexpected store to {n}"
+  | .cas n 0 _ so fo e d ok obs =>
+    match slotOf "lpop." n with
+    | some k =>
+      if so == .rlx ∧ fo == .rlx ∧ d == e + 1 then .ok (some (.casPop k e ok obs))
+      else .error "unexpected shape of the CAS on a pop index"
+    | none => .error s!"unexpected CAS on {n}"
+  | .rmw "add" n 0 o old 1 =>
+    if o != .rlx then .error "memory order of a ticket fetch_add is not relaxed"
+    else if n == "gpush" then .ok (some (.gPushTk old))
+    else if n == "gpop" then .ok (some (.gPopTk old))
+    else .error s!"unexpected fetch_add on {n}"
+  | .join u => .ok (some (.join u))
+  | .exit => .ok (some .exit)
+  | .spawn _ => .ok none
+  | .ev ["submit", id, inp] =>
+    match id.toNat?, parseIn inp with
+    | some id, some b => .ok (some (.submit id b))
+    | _, _ => .error "bad submit event"
+  | .ev ["accept", id] => match id.toNat? with | some id => .ok (some (.accept id)) | none => .error "bad event"
+  | .ev ["reject", id] => match id.toNat? with | some id => .ok (some (.reject id)) | none => .error "bad event"
+  | .ev ["run", id, inp] =>
+    match id.toNat?, parseIn inp with
+    | some id, some b => .ok (some (.run id b))
+    | _, _ => .error "bad run event"
+  | .ev ["done", id] => match id.toNat? with | some id => .ok (some (.done id)) | none => .error "bad event"
+  | .ev ["stop_begin"] => .ok (some .stopBegin)
+  | .ev ["stop_end"] => .ok (some .stopEnd)
+  | .ev ["wakeup"] => .ok (some .wakeup)
+  | .ev ["wakeup_ret"] => .ok (some .wakeupRet)
+  | .ev ["scope_enter"] => .ok (some .scopeEnter)
+  | .ev ["scope_leave"] => .ok (some .scopeLeave)
+  | .ev _ => .ok none
+  | .race _ => .error "race reported by the payload monitor"
+  | a => .error s!"unexpected action {reprStr a} on a named location"
+
+def findThread (r : RState) (p : Pc → Bool) : Option Nat :=
+  (List.range (r.maxTid + 1)).find? (fun u => p (r.s.pc u))
+
+def holdsLocal (k i : Nat) : Pc → Bool
+  | .bRel k' i' => k' == k && i' == i
+  | .gTake _ (.bRel k' i') => k' == k && i' == i
+  | .gPub _ (.bRel k' i') => k' == k && i' == i
+  | _ => false
+
+/-- perform the hidden steps thread `t` owes (and, recursively, those they wait for) -/
+partial def force (r : RState) (t : Nat) (fuel : Nat) : Except String RState :=
+  if fuel = 0 then .error "hidden-step inference ran out of fuel" else
+  match r.s.pc t with
+  | .gPub p _ =>
+    if r.s.g.slotFree r.c.gslots p then
+      match step r.c r.s t .publish with
+      | some s' => force { r with s := s', hiddenSteps := r.hiddenSteps + 1 } t (fuel - 1)
+      | none => .error s!"thread {t}: publish of global ticket {p} is not enabled in the model"
+    else
+      match findThread r (fun q => q == .wGWait (p - r.c.gslots)) with
+      | some u => do
+        let r' ← force r u (fuel - 1)
+        if r'.s.g.slotFree r.c.gslots p then force r' t (fuel - 1)
+        else .error s!"thread {t} completed the push of global ticket {p} but slot {p - r.c.gslots} is still occupied in the model"
+      | none => .error s!"thread {t} completed the push of global ticket {p} but ticket {p - r.c.gslots} has not been popped (queue full) in the model"
+  | .wGWait i =>
+    if r.s.g.ready i then
+      match step r.c r.s t .receive with
+      | some s' => .ok { r with s := s', hiddenSteps := r.hiddenSteps + 1 }
+      | none => .error s!"thread {t}: receive of global ticket {i} is not enabled in the model"
+    else
+      match findThread r (fun q => match q with | .gPub p _ => p == i | _ => false) with
+      | some u => do
+        let r' ← force r u (fuel - 1)
+        if r'.s.g.ready i then force r' t (fuel - 1)
+        else .error s!"thread {t} obtained global ticket {i} which is not published in the model"
+      | none => .error s!"thread {t} obtained the value of global ticket {i} but no push holds that ticket in the model"
+  | .rLPub _ _ p =>
+    match r.s.own t with
+    | none => .error "local publish by a thread without a slot"
+    | some k =>
+      if (r.s.l k).slotFree r.c.lslots p then
+        match step r.c r.s t .publish with
+        | some s' => .ok { r with s := s', hiddenSteps := r.hiddenSteps + 1 }
+        | none => .error s!"thread {t}: publish of local ticket {p} is not enabled in the model"
+      else
+        match findThread r (holdsLocal k (p - r.c.lslots)) with
+        | some u => do
+          let r' ← force r u (fuel - 1)
+          -- the balancer may still have to do its release
+          let r'' ← (match r'.s.pc u with | .bRel _ _ => force r' u (fuel - 1) | _ => .ok r')
+          if (r''.s.l k).slotFree r.c.lslots p then force r'' t (fuel - 1)
+          else .error s!"thread {t} completed the push of local ticket {p} of queue {k} but slot {p - r.c.lslots} is still held in the model"
+        | none => .error s!"thread {t} completed the push of local ticket {p} of queue {k} but slot {p - r.c.lslots} is not free in the model"
+  | .bRel _ _ =>
+    match step r.c r.s t .release with
+    | some s' => .ok { r with s := s', hiddenSteps := r.hiddenSteps + 1 }
+    | none => .error s!"thread {t}: release is not enabled in the model"
+  | _ => .ok r
+
+def stepPool (r : RState) (o : Obs) (a : Act) : Except String RState := do
+  let t := o.tid
+  let r := { r with maxTid := max r.maxTid t }
+  match a with
+  | .ev ["started"] => return { r with started := true }
+  | _ =>
+  if !r.started && t == 0 then return r      -- construction / start(): before the model's initial state
+  match ← lblOf a with
+  | none => return r
+  | some lb =>
+    -- a thread other than the stopper/balancer never loads `_running`; the main thread's own joins of
+    -- harness threads are `idle` joins
+    let r ← force r t 64
+    let r ← (match r.s.pc t with | .bRel _ _ => force r t 64 | .gPub _ _ => force r t 64 | _ => .ok r)
+    match step r.c r.s t lb with
+    | some s' => return { r with s := s' }
+    | none =>
+      -- a claim of a local ticket whose publish is still pending in the model: do it now
+      match lb with
+      | .casPop k e true _ =>
+        match findThread r (fun q => match q with | .rLPub _ _ p => p == e | _ => false) with
+        | some u =>
+          if r.s.own u = some k then
+            let r' ← force r u 64
+            match step r'.c r'.s t lb with
+            | some s' => return { r' with s := s' }
+            | none => throw s!"thread {t} at {showPc (r.s.pc t)}: step {reprStr lb} is not enabled in the model (after completing the pending push)"
+          else throw s!"thread {t} at {showPc (r.s.pc t)}: step {reprStr lb} is not enabled in the model"
+        | none => throw s!"thread {t} at {showPc (r.s.pc t)}: step {reprStr lb} is not enabled in the model"
+      | _ => throw s!"thread {t} at {showPc (r.s.pc t)}: step {reprStr lb} is not enabled in the model"
+
+def stepObs (r : RState) (o : Obs) : Except String RState :=
+  match Act.ofObs o with
+  | none => if o.kind == "VERDICT" then .ok r else .error "unknown trace line"
+  | some a =>
+    if r.mode == "pool" then stepPool r o a
+    else match Simple.stepAct r.mode r.simple o.tid a with
+      | .ok s' => .ok { r with simple := s' }
+      | .error e => .error e
+
+/-- end of trace: the model-side statement of the property on the replayed path -/
+def finalR (r : RState) : Except String Unit :=
+  if r.mode != "pool" then Simple.final r.mode r.simple else
+  if !r.s.stopReturned then .ok () else
+  let ids := List.range 4096
+  match ids.find? (fun id => r.s.known id && (r.s.preStop id || r.s.viaLocal id) && !r.s.done id) with
+  | some id => .error s!"model: stop() returned but task {id} (accepted before stop / pushed into a local queue) is not done"
+  | none =>
+    match ids.find? (fun id => r.s.runs id > 1) with
+    | some id => .error s!"model: task {id} ran {r.s.runs id} times"
+    | none => .ok ()
+
+def main : IO Unit := do
+  replayLoop (← IO.getStdin) initR stepObs finalR
